@@ -137,6 +137,9 @@ def check_fpp(A, prop, fn, cls, G, nodes, I0, R0, tmin, tmax, delay, duration, m
 # fast_nonMarkov_SIR under lazily enumerated user tables
 # ------------------------------------------------------------------------------------------
 
+TA = ("ta", 7); RA = ("ra",); JA = ("ja", "jb", 3)
+
+
 def run_nonmarkov(spec, props=("C11",)):
     EoN, sim = import_eon()
     A = Acc()
@@ -171,8 +174,29 @@ def run_nonmarkov(spec, props=("C11",)):
         kw = dict(initial_infecteds=list(I0), tmin=tmin, tmax=tmax, return_full_data=full_)
         if R0:
             kw["initial_recovereds"] = list(R0)
+        # the documented extra-argument tuples: the user's functions have exactly these signatures
+        bad = orc.ctx.setdefault("badargs", [])
+
+        def tf_a(u, v, ta, tb):
+            if (ta, tb) != TA:
+                bad.append(("trans_time_fxn", (ta, tb), TA))
+            return tf(u, v)
+
+        def rf_a(u, ra):
+            if (ra,) != RA:
+                bad.append(("rec_time_fxn", (ra,), RA))
+            return rf(u)
+
+        def joint_a(node, sus, ja, jb, jc):
+            if (ja, jb, jc) != JA:
+                bad.append(("trans_and_rec_time_fxn", (ja, jb, jc), JA))
+            return joint(node, sus)
         if form == "sep":
             return EoN.fast_nonMarkov_SIR(G, trans_time_fxn=tf, rec_time_fxn=rf, **kw)
+        if form == "sep_args":
+            return EoN.fast_nonMarkov_SIR(G, trans_time_fxn=tf_a, rec_time_fxn=rf_a, trans_time_args=TA, rec_time_args=RA, **kw)
+        if form == "joint_args":
+            return EoN.fast_nonMarkov_SIR(G, trans_and_rec_time_fxn=joint_a, trans_and_rec_time_args=JA, **kw)
         return EoN.fast_nonMarkov_SIR(G, trans_and_rec_time_fxn=joint, **kw)
 
     before = mon.snap(G)
@@ -194,6 +218,9 @@ def run_nonmarkov(spec, props=("C11",)):
         tab = r.ctx.get("tab", {"delay": {}, "dur": {}})
         delay = tab["delay"]; duration = tab["dur"]
         out = r.out
+        if r.ctx.get("badargs") and "C11" in props:
+            w, got, want = r.ctx["badargs"][0]
+            A.add(V("C11", fn, cls, "callback_args", "%s received the extra arguments %r, the caller supplied %r" % (w, got, want), pre))
         zero_or_tie = True   # menus contain ties on purpose
         arrs = None
         if full:
@@ -548,6 +575,12 @@ def specs_nonmarkov(tier):
                             m = menu if len(es) <= 3 else [0, 1, "inf"]
                             out.append(dict(fn="fast_nonMarkov_SIR", n=n, edges=es, I0=list(I0), R0=list(R0),
                                             tmin=tmin, tmax=tmax, menu=m, form=form, full=full))
+        if n <= 3 and es:
+            for I0 in ([0], [1]):
+                for form in ("sep_args", "joint_args"):
+                    for full in (True, False):
+                        out.append(dict(fn="fast_nonMarkov_SIR", n=n, edges=es, I0=list(I0), R0=[], tmin=0, tmax="inf",
+                                        menu=[0, 1, "inf"], form=form, full=full))
         if n == 3 and len(es) == 2:
             for I0 in ([0], [1]):
                 out.append(dict(fn="fast_nonMarkov_SIR", n=n, edges=list(es) + [(1, 1), (0, 0)], I0=list(I0), R0=[], tmin=0, tmax="inf",
